@@ -11,9 +11,9 @@ mod catalogue;
 mod refmodel;
 
 use catalogue::Data;
-use linfa::traits::{Fit, Predict};
-use linfa::{DatasetBase, Float};
-use linfa_elasticnet::{ElasticNet, MultiTaskElasticNet};
+use linfa::traits::{Fit, Predict, PredictInplace};
+use linfa::{DatasetBase, Float, ParamGuard};
+use linfa_elasticnet::{ElasticNet, ElasticNetParamsBase, MultiTaskElasticNet};
 use linfa_linear::LinearRegression;
 use lvmc_core::{guarded, json, par_sweep, Ctx, Level, Value, Violation};
 use ndarray::{s, Array1, Array2, ArrayView1, ArrayView2, ShapeBuilder};
@@ -56,9 +56,15 @@ struct Case {
     y_layout: String,
     #[serde(default = "std_layout")]
     pred_layout: String,
+    /// how the estimator / parameter set is constructed: "canonical" or one of the forms of `builder_specs`
+    #[serde(default = "canonical_form")]
+    form: String,
 }
 fn std_layout() -> String {
     "std".to_string()
+}
+fn canonical_form() -> String {
+    "canonical".to_string()
 }
 
 #[derive(Clone, Debug)]
@@ -74,6 +80,7 @@ struct Spec {
     x_layout: &'static str,
     y_layout: &'static str,
     pred_layout: &'static str,
+    form: String,
 }
 impl Spec {
     fn is_std(&self) -> bool {
@@ -124,6 +131,80 @@ struct FitOut {
     gap: f64,
     n_steps: u32,
     pred: Vec<Vec<f64>>, // n x t
+    /// Some(description) when the getters of the checked parameter set differ from the final logical set
+    getters: Option<String>,
+    /// Some(description) when predict_inplace into a poisoned / reused buffer differs from predict
+    inplace: Option<String>,
+}
+
+/// bit pattern of a float sequence (NaN-safe comparison)
+fn bits<F: Float>(it: impl Iterator<Item = F>) -> Vec<u64> {
+    it.map(|v| f64of(v).to_bits()).collect()
+}
+
+/// Builds the elastic-net parameter set of `s` in the requested form; returns it with the result of the getter check.
+fn build_params<F: Float, const MT: bool>(
+    s: &Spec,
+    params: ElasticNetParamsBase<F, MT>,
+    ridge: ElasticNetParamsBase<F, MT>,
+    lasso: ElasticNetParamsBase<F, MT>,
+) -> (ElasticNetParamsBase<F, MT>, Option<String>) {
+    let apply = |p: ElasticNetParamsBase<F, MT>, k: usize, decoy: bool| -> ElasticNetParamsBase<F, MT> {
+        match k {
+            0 => p.penalty(F::cast(if decoy { s.penalty + 3.0 } else { s.penalty })),
+            1 => p.l1_ratio(F::cast(if decoy { (s.l1_ratio + 0.37) % 1.0 } else { s.l1_ratio })),
+            2 => p.with_intercept(s.intercept ^ decoy),
+            3 => p.tolerance(F::cast(if decoy { s.tol * 100.0 + 1e-3 } else { s.tol })),
+            _ => p.max_iterations(if decoy { s.max_iter / 2 + 7 } else { s.max_iter }),
+        }
+    };
+    let all = |mut p: ElasticNetParamsBase<F, MT>, order: &[usize]| {
+        for &k in order {
+            p = apply(p, k, false);
+        }
+        p
+    };
+    let form = s.form.as_str();
+    let built = if let Some(o) = form.strip_prefix("perm:") {
+        let order: Vec<usize> = o.split(',').map(|k| k.parse().unwrap()).collect();
+        all(params, &order)
+    } else if let Some(c) = form.strip_prefix("ctor:") {
+        let start = match c {
+            "new" => ElasticNetParamsBase::<F, MT>::new(),
+            "default" => ElasticNetParamsBase::<F, MT>::default(),
+            "ridge" => ridge,
+            _ => lasso,
+        };
+        all(start, &[0, 1, 2, 3, 4])
+    } else if let Some(k) = form.strip_prefix("decoy:") {
+        let k: usize = k.parse().unwrap();
+        let mut p = apply(params, k, true);
+        p = all(p, &[0, 1, 2, 3, 4]);
+        p
+    } else if let Some(c) = form.strip_prefix("nosetters:") {
+        match c {
+            "params" => params,
+            "new" => ElasticNetParamsBase::<F, MT>::new(),
+            "default" => ElasticNetParamsBase::<F, MT>::default(),
+            "ridge" => ridge,
+            _ => lasso,
+        }
+    } else {
+        all(params, &[0, 1, 2, 3, 4])
+    };
+    let getters = match built.check_ref() {
+        Ok(v) => {
+            let got = (f64of(v.penalty()), f64of(v.l1_ratio()), v.with_intercept(), f64of(v.tolerance()), v.max_iterations());
+            let want = (f64of(F::cast(s.penalty)), f64of(F::cast(s.l1_ratio)), s.intercept, f64of(F::cast(s.tol)), s.max_iter);
+            if got != want {
+                Some(format!("checked parameters (penalty, l1_ratio, with_intercept, tolerance, max_iterations) = {:?}, final logical set {:?}", got, want))
+            } else {
+                None
+            }
+        }
+        Err(e) => Some(format!("check_ref of a valid parameter set failed: {}", e)),
+    };
+    (built, getters)
 }
 
 enum Fail {
@@ -179,22 +260,45 @@ fn fit_ols<F: Float>(x: &[Vec<f64>], y: &[Vec<f64>], s: &Spec) -> Result<FitOut,
     let (xb, xpb): (Array2<F>, Array2<F>) = (hold2(x, s.x_layout), hold2(x, s.pred_layout));
     let yb: Array1<F> = hold1(&y.iter().map(|r| r[0]).collect::<Vec<_>>(), s.y_layout);
     let (xa, xp, ya) = (view2(&xb, s.x_layout), view2(&xpb, s.pred_layout), view1(&yb, s.y_layout));
+    let xrev: Array2<F> = hold2(x, "rev");
     let r = guarded(|| {
         let ds = DatasetBase::new(xa, ya);
-        LinearRegression::new().with_intercept(s.intercept).fit(&ds).map(|m| {
+        // "new" / "default": no setter (documented default: an intercept is fitted); ".set": with_intercept(e);
+        // ".decoy.set": with_intercept(!e) first
+        let est = match s.form.as_str() {
+            "new" => LinearRegression::new(),
+            "default" => LinearRegression::default(),
+            "new.set" => LinearRegression::new().with_intercept(s.intercept),
+            "default.set" => LinearRegression::default().with_intercept(s.intercept),
+            "new.decoy.set" => LinearRegression::new().with_intercept(!s.intercept).with_intercept(s.intercept),
+            "default.decoy.set" => LinearRegression::default().with_intercept(!s.intercept).with_intercept(s.intercept),
+            _ => LinearRegression::new().with_intercept(s.intercept),
+        };
+        est.fit(&ds).map(|m| {
             let pred: Array1<F> = m.predict(&xp);
-            (m.params().to_vec(), m.intercept(), pred.to_vec())
+            let mut poison: Array1<F> = Array1::from_elem(xp.nrows(), F::nan());
+            m.predict_inplace(&xp, &mut poison);
+            let mut reused: Array1<F> = m.predict(&xrev);
+            m.predict_inplace(&xp, &mut reused);
+            let inplace = if bits(poison.iter().cloned()) != bits(pred.iter().cloned()) || bits(reused.iter().cloned()) != bits(pred.iter().cloned()) {
+                Some(format!("predict = {:?}, predict_inplace into a NaN buffer = {:?}, into the predictions of the reversed batch = {:?}", pred.to_vec(), poison.to_vec(), reused.to_vec()))
+            } else {
+                None
+            };
+            (m.params().to_vec(), m.intercept(), pred.to_vec(), inplace)
         })
     });
     match r {
         Err(p) => Err(Fail::Panic(p)),
         Ok(Err(e)) => Err(Fail::Error(format!("{}", e))),
-        Ok(Ok((w, b, pred))) => Ok(FitOut {
+        Ok(Ok((w, b, pred, inplace))) => Ok(FitOut {
             w: w.iter().map(|&v| vec![f64of(v)]).collect(),
             b: vec![f64of(b)],
             gap: 0.0,
             n_steps: 0,
             pred: pred.iter().map(|&v| vec![f64of(v)]).collect(),
+            getters: None,
+            inplace,
         }),
     }
 }
@@ -203,29 +307,35 @@ fn fit_enet<F: Float>(x: &[Vec<f64>], y: &[Vec<f64>], s: &Spec) -> Result<FitOut
     let (xb, xpb): (Array2<F>, Array2<F>) = (hold2(x, s.x_layout), hold2(x, s.pred_layout));
     let yb: Array1<F> = hold1(&y.iter().map(|r| r[0]).collect::<Vec<_>>(), s.y_layout);
     let (xa, xp, ya) = (view2(&xb, s.x_layout), view2(&xpb, s.pred_layout), view1(&yb, s.y_layout));
+    let xrev: Array2<F> = hold2(x, "rev");
     let r = guarded(|| {
         let ds = DatasetBase::new(xa, ya);
-        ElasticNet::<F>::params()
-            .penalty(F::cast(s.penalty))
-            .l1_ratio(F::cast(s.l1_ratio))
-            .with_intercept(s.intercept)
-            .tolerance(F::cast(s.tol))
-            .max_iterations(s.max_iter)
-            .fit(&ds)
-            .map(|m| {
-                let pred: Array1<F> = m.predict(&xp);
-                (m.hyperplane().to_vec(), m.intercept(), m.duality_gap(), m.n_steps(), pred.to_vec())
-            })
+        let (params, getters) = build_params::<F, false>(s, ElasticNet::<F>::params(), ElasticNet::<F>::ridge(), ElasticNet::<F>::lasso());
+        params.fit(&ds).map(|m| {
+            let pred: Array1<F> = m.predict(&xp);
+            let mut poison: Array1<F> = Array1::from_elem(xp.nrows(), F::nan());
+            m.predict_inplace(&xp, &mut poison);
+            let mut reused: Array1<F> = m.predict(&xrev);
+            m.predict_inplace(&xp, &mut reused);
+            let inplace = if bits(poison.iter().cloned()) != bits(pred.iter().cloned()) || bits(reused.iter().cloned()) != bits(pred.iter().cloned()) {
+                Some(format!("predict = {:?}, predict_inplace into a NaN buffer = {:?}, into the predictions of the reversed batch = {:?}", pred.to_vec(), poison.to_vec(), reused.to_vec()))
+            } else {
+                None
+            };
+            (m.hyperplane().to_vec(), m.intercept(), m.duality_gap(), m.n_steps(), pred.to_vec(), getters, inplace)
+        })
     });
     match r {
         Err(p) => Err(Fail::Panic(p)),
         Ok(Err(e)) => Err(Fail::Error(format!("{}", e))),
-        Ok(Ok((w, b, gap, n_steps, pred))) => Ok(FitOut {
+        Ok(Ok((w, b, gap, n_steps, pred, getters, inplace))) => Ok(FitOut {
             w: w.iter().map(|&v| vec![f64of(v)]).collect(),
             b: vec![f64of(b)],
             gap: f64of(gap),
             n_steps,
             pred: pred.iter().map(|&v| vec![f64of(v)]).collect(),
+            getters,
+            inplace,
         }),
     }
 }
@@ -234,29 +344,35 @@ fn fit_mtl<F: Float>(x: &[Vec<f64>], y: &[Vec<f64>], s: &Spec) -> Result<FitOut,
     let (xb, xpb): (Array2<F>, Array2<F>) = (hold2(x, s.x_layout), hold2(x, s.pred_layout));
     let yb: Array2<F> = hold2(y, s.y_layout);
     let (xa, xp, ya) = (view2(&xb, s.x_layout), view2(&xpb, s.pred_layout), view2(&yb, s.y_layout));
+    let xrev: Array2<F> = hold2(x, "rev");
     let r = guarded(|| {
         let ds = DatasetBase::new(xa, ya);
-        MultiTaskElasticNet::<F>::params()
-            .penalty(F::cast(s.penalty))
-            .l1_ratio(F::cast(s.l1_ratio))
-            .with_intercept(s.intercept)
-            .tolerance(F::cast(s.tol))
-            .max_iterations(s.max_iter)
-            .fit(&ds)
-            .map(|m| {
-                let pred: Array2<F> = m.predict(&xp);
-                (m.hyperplane().clone(), m.intercept().to_vec(), m.duality_gap(), m.n_steps(), pred)
-            })
+        let (params, getters) = build_params::<F, true>(s, MultiTaskElasticNet::<F>::params(), MultiTaskElasticNet::<F>::ridge(), MultiTaskElasticNet::<F>::lasso());
+        params.fit(&ds).map(|m| {
+            let pred: Array2<F> = m.predict(&xp);
+            let mut poison: Array2<F> = Array2::from_elem(pred.raw_dim(), F::nan());
+            m.predict_inplace(&xp, &mut poison);
+            let mut reused: Array2<F> = m.predict(&xrev);
+            m.predict_inplace(&xp, &mut reused);
+            let inplace = if bits(poison.iter().cloned()) != bits(pred.iter().cloned()) || bits(reused.iter().cloned()) != bits(pred.iter().cloned()) || poison.dim() != pred.dim() || reused.dim() != pred.dim() {
+                Some(format!("predict = {:?}, predict_inplace into a NaN buffer = {:?}, into the predictions of the reversed batch = {:?}", pred, poison, reused))
+            } else {
+                None
+            };
+            (m.hyperplane().clone(), m.intercept().to_vec(), m.duality_gap(), m.n_steps(), pred, getters, inplace)
+        })
     });
     match r {
         Err(p) => Err(Fail::Panic(p)),
         Ok(Err(e)) => Err(Fail::Error(format!("{}", e))),
-        Ok(Ok((w, b, gap, n_steps, pred))) => Ok(FitOut {
+        Ok(Ok((w, b, gap, n_steps, pred, getters, inplace))) => Ok(FitOut {
             w: (0..w.nrows()).map(|j| (0..w.ncols()).map(|t| f64of(w[(j, t)])).collect()).collect(),
             b: b.iter().map(|&v| f64of(v)).collect(),
             gap: f64of(gap),
             n_steps,
             pred: (0..pred.nrows()).map(|i| (0..pred.ncols()).map(|t| f64of(pred[(i, t)])).collect()).collect(),
+            getters,
+            inplace,
         }),
     }
 }
@@ -312,6 +428,7 @@ fn run_fit(data: &Data, s: &Spec, viols: &mut Vec<Violation>, st: &mut Stats) ->
             x_layout: s.x_layout.to_string(),
             y_layout: s.y_layout.to_string(),
             pred_layout: s.pred_layout.to_string(),
+            form: s.form.clone(),
         })
         .unwrap()
     };
@@ -386,6 +503,16 @@ fn run_fit(data: &Data, s: &Spec, viols: &mut Vec<Violation>, st: &mut Stats) ->
         return None;
     }
 
+    // ---- published parameters equal the final logical parameter set; predict_inplace does not depend on the buffer
+    if let Some(g) = &out.getters {
+        let sig = if s.form.starts_with("perm:") || s.form.starts_with("decoy:") { "params.builder_order_dependence" } else if s.form == "canonical" { "params.getters_differ_from_setters" } else { "params.constructor_dependence" };
+        viols.push(Violation::new(format!("{}.{}", s.est, sig), format!("form {}: {}", s.form, g), case_json()));
+    }
+    if let Some(g) = &out.inplace {
+        viols.push(Violation::new(format!("{}.predict_inplace.depends_on_buffer_contents", s.est), g.clone(), case_json()));
+    }
+    st.inc("predict_inplace_poisoned_and_reused_buffer_checked");
+
     // ---- predict == X w + b (always, also for unconverged runs)
     for i in 0..n {
         for tt in 0..t {
@@ -428,10 +555,35 @@ fn run_fit(data: &Data, s: &Spec, viols: &mut Vec<Violation>, st: &mut Stats) ->
                 ),
                 case_json(),
             ));
+        } else if prob.lam1 > 0.0 && f32_ok && n <= 100 {
+            // generalisation: a SMALL problem on which the harness's own textbook cyclic (block) coordinate descent,
+            // run on exactly the problem the implementation iterates on (records as given, targets centred when an
+            // intercept is fitted, start at 0), meets the same stopping rule with margin within <= 100 sweeps
+            let margin = if s.float == "f32" { 0.01 } else { 0.5 };
+            if let Some(sweeps) = refmodel::cd_sweeps_to_converge(&prob, s.intercept, s.tol, margin, 100) {
+                st.inc("cap_on_easy_problem_checked");
+                if s.max_iter as usize >= 100 * sweeps {
+                    viols.push(Violation::new(
+                        format!("{}.iteration_cap_on_easy_problem", s.est),
+                        format!(
+                            "the run used all {} iterations (gap {} vs stop threshold tol*||y||^2 = {}), but plain cyclic coordinate descent from 0 on the same problem reaches gap < {} x threshold with stabilised coefficients after {} sweeps; returned w={:?} b={:?}",
+                            s.max_iter, out.gap, s.tol * prob.y_centred_sq(s.intercept), margin, sweeps, out.w, out.b
+                        ),
+                        case_json(),
+                    ));
+                }
+            }
         }
         return Some(out);
     }
     st.inc("judged_converged");
+    if prob.lam1 > 0.0 && n <= 100 && !refmodel::orthogonal_centred(&x) {
+        let mags: Vec<f64> = x.iter().flatten().map(|v| v.abs()).filter(|&v| v > 0.0).collect();
+        let f32_ok = s.float == "f64" || (s.tol >= 1e-4 && mags.iter().all(|&v| (1e-2..=1e2).contains(&v)));
+        if f32_ok && refmodel::cd_sweeps_to_converge(&prob, s.intercept, s.tol, if s.float == "f32" { 0.01 } else { 0.5 }, 100).is_some() {
+            st.inc("cap_on_easy_problem_checked");
+        }
+    }
     if prob.lam1 > 0.0 && refmodel::orthogonal_centred(&x) {
         st.inc("cap_on_orthogonal_centred_design_checked");
     }
@@ -650,7 +802,7 @@ fn judge_ols(x: &[Vec<f64>], y: &[Vec<f64>], s: &Spec, out: &FitOut, tl: &Tol, v
         noise += v.abs() * mag;
     }
     sse += n as f64 * db * db;
-    let slack = (tl.c_orth * (s_scale + lsq.cond * rnorm)).powi(2) + 8.0 * f64::EPSILON * (noise + lsq.sse);
+    let slack = (tl.c_orth * (s_scale + lsq.cond * rnorm)).powi(2) + 8.0 * f64::EPSILON * (n as f64 / 40.0).sqrt().max(1.0) * (noise + lsq.sse);
     st.max(if s.float == "f32" { "ols_max_sse_excess_over_slack_f32" } else { "ols_max_sse_excess_over_slack_f64" }, (sse - lsq.sse) / slack);
     if sse > lsq.sse + slack {
         viols.push(Violation::new(
@@ -678,6 +830,7 @@ fn spec_of(c: &Case) -> Spec {
         x_layout: lay(&c.x_layout),
         y_layout: lay(&c.y_layout),
         pred_layout: lay(&c.pred_layout),
+        form: c.form.clone(),
     }
 }
 
@@ -685,6 +838,53 @@ fn spec_of(c: &Case) -> Spec {
 /// in standard layout (its verdicts are not reported again), then in the requested layout (judged by all
 /// oracles), and the two fitted models must agree.
 fn run_case(data: &Data, s: &Spec, viols: &mut Vec<Violation>, st: &mut Stats) {
+    if s.form != "canonical" {
+        // builder family: the same logical parameter set built in the canonical way must give the identical model
+        let mut canon = s.clone();
+        canon.form = canonical_form();
+        let mut cv = Vec::new();
+        let mut cs = Stats::default();
+        let a = run_fit(data, &canon, &mut cv, &mut cs);
+        let b = run_fit(data, s, viols, st);
+        st.inc("builder_form_runs");
+        let same = match (&a, &b) {
+            (Some(a), Some(b)) => {
+                let key = |m: &FitOut| (m.w.iter().flatten().map(|v| v.to_bits()).collect::<Vec<_>>(), m.b.iter().map(|v| v.to_bits()).collect::<Vec<_>>(), m.gap.to_bits(), m.n_steps, m.pred.iter().flatten().map(|v| v.to_bits()).collect::<Vec<_>>());
+                key(a) == key(b)
+            }
+            (None, None) => true,
+            _ => false,
+        };
+        if same {
+            st.inc("builder_forms_bit_identical_to_canonical");
+        } else {
+            let kind = if s.form.starts_with("perm:") || s.form.starts_with("decoy:") { "builder_order_dependence" } else { "constructor_dependence" };
+            let show = |m: &Option<FitOut>| m.as_ref().map_or("no model".to_string(), |m| format!("w={:?} b={:?} gap={} n_steps={}", m.w, m.b, m.gap, m.n_steps));
+            let mut c = serde_json::to_value(Case {
+                data: data.clone(),
+                float: s.float.to_string(),
+                est: s.est.to_string(),
+                targets: s.targets.clone(),
+                penalty: s.penalty,
+                l1_ratio: s.l1_ratio,
+                intercept: s.intercept,
+                tol: s.tol,
+                max_iter: s.max_iter,
+                x_layout: "std".into(),
+                y_layout: "std".into(),
+                pred_layout: "std".into(),
+                form: s.form.clone(),
+            })
+            .unwrap();
+            c.as_object_mut().unwrap().insert("builder_family".into(), json!(true));
+            viols.push(Violation::new(
+                format!("{}.params.{}", s.est, kind),
+                format!("form {} (final logical set: penalty {}, l1_ratio {}, intercept {}, tol {}, max_iterations {}): model {} differs from the canonical construction: {}", s.form, s.penalty, s.l1_ratio, s.intercept, s.tol, s.max_iter, show(&b), show(&a)),
+                c,
+            ));
+        }
+        return;
+    }
     if s.is_std() {
         run_fit(data, s, viols, st);
         return;
@@ -714,6 +914,7 @@ fn run_case(data: &Data, s: &Spec, viols: &mut Vec<Violation>, st: &mut Stats) {
             x_layout: s.x_layout.to_string(),
             y_layout: s.y_layout.to_string(),
             pred_layout: s.pred_layout.to_string(),
+            form: s.form.clone(),
         })
         .unwrap();
         c.as_object_mut().unwrap().insert("layout_family".into(), json!(true));
@@ -797,6 +998,8 @@ struct Task {
     est: &'static str,
     /// false: the parameter grid in standard layout; true: the layout family (spec subset x layouts)
     layouts: bool,
+    /// the builder family (constructors, setter orders, decoy writes) instead of the grid
+    builder: bool,
     /// large members: the grid is split by penalty into 5 tasks (parallelism); None = whole grid
     penalty_chunk: Option<usize>,
 }
@@ -812,11 +1015,76 @@ fn in_layout_family(d: &Data, thorough: bool) -> bool {
     if d.offsets.iter().any(|&v| v != o) || d.scales.iter().any(|&v| v != sc) {
         return false;
     }
+    if d.x.len() > 1000 {
+        return thorough && o == 0.0 && sc == 1.0;
+    }
     if thorough {
         (o == 0.0 || o == 5.0) && (sc == 1.0 || sc == 1e3)
     } else {
         d.x.len() < 1000 && ((o == 5.0 && sc == 1.0) || (o == 0.0 && sc == 1e3))
     }
+}
+
+/// Members of the builder family: three small data sets (offset 0 and 5).
+fn in_builder_family(d: &Data) -> bool {
+    if d.variant != "full_rank" {
+        return false;
+    }
+    let same = d.offsets.iter().all(|&v| v == d.offsets[0]) && d.scales.iter().all(|&v| v == 1.0);
+    same && ((d.design == "p2_n6_ff2x3" && (d.offsets[0] == 0.0 || d.offsets[0] == 5.0)) || (d.design == "p1_n4_levels4" && d.offsets[0] == 5.0))
+}
+
+/// Every constructor, every order of the five setters, decoy-then-real writes and the setter-free forms.
+fn builder_specs(task: &Task) -> Vec<Spec> {
+    let mut v = Vec::new();
+    let base = |est: &'static str, targets: Vec<usize>, penalty: f64, l1_ratio: f64, intercept: bool, tol: f64, max_iter: u32, form: String| Spec {
+        float: task.float,
+        est,
+        targets,
+        penalty,
+        l1_ratio,
+        intercept,
+        tol,
+        max_iter,
+        x_layout: "std",
+        y_layout: "std",
+        pred_layout: "std",
+        form,
+    };
+    if task.est == "ols" {
+        for intercept in [true, false] {
+            for form in ["new.set", "default.set", "new.decoy.set", "default.decoy.set"] {
+                v.push(base("ols", vec![0], 0.0, 0.0, intercept, 0.0, 0, form.to_string()));
+            }
+        }
+        // documented default of new() and default(): an intercept is fitted
+        for form in ["new", "default"] {
+            v.push(base("ols", vec![0], 0.0, 0.0, true, 0.0, 0, form.to_string()));
+        }
+        return v;
+    }
+    let (est, targets): (&'static str, Vec<usize>) = if task.est == "mtl" { ("mtl", vec![0, 1, 2]) } else { ("enet", vec![0]) };
+    let tol_a = if task.float == "f32" { 1e-5 } else { 1e-8 };
+    for (penalty, l1_ratio, intercept, tol, max_iter) in [(0.1, 0.5, true, tol_a, 4321u32), (1.0, 1.0, false, 1e-3, 777u32)] {
+        for perm in lvmc_core::enumerate::permutations(5) {
+            let form = format!("perm:{}", perm.iter().map(|k| k.to_string()).collect::<Vec<_>>().join(","));
+            if form == "perm:0,1,2,3,4" {
+                continue;
+            }
+            v.push(base(est, targets.clone(), penalty, l1_ratio, intercept, tol, max_iter, form));
+        }
+        for c in ["new", "default", "ridge", "lasso"] {
+            v.push(base(est, targets.clone(), penalty, l1_ratio, intercept, tol, max_iter, format!("ctor:{}", c)));
+        }
+        for k in 0..5 {
+            v.push(base(est, targets.clone(), penalty, l1_ratio, intercept, tol, max_iter, format!("decoy:{}", k)));
+        }
+    }
+    // setter-free forms: documented defaults penalty 1, l1_ratio 0.5 (ridge 0, lasso 1), intercept, tolerance 1e-4, 1000 iterations
+    for (c, l1) in [("params", 0.5), ("new", 0.5), ("default", 0.5), ("ridge", 0.0), ("lasso", 1.0)] {
+        v.push(base(est, targets.clone(), 1.0, l1, true, 1e-4, 1000, format!("nosetters:{}", c)));
+    }
+    v
 }
 
 fn layout_specs(ctx: &Ctx, task: &Task) -> Vec<Spec> {
@@ -834,7 +1102,7 @@ fn layout_specs(ctx: &Ctx, task: &Task) -> Vec<Spec> {
     for (xl, yl, pl) in combos {
         if task.est == "ols" {
             for intercept in [true, false] {
-                v.push(Spec { float: task.float, est: "ols", targets: vec![0], penalty: 0.0, l1_ratio: 0.0, intercept, tol: 0.0, max_iter: 0, x_layout: xl, y_layout: yl, pred_layout: pl });
+                v.push(Spec { float: task.float, est: "ols", targets: vec![0], penalty: 0.0, l1_ratio: 0.0, intercept, tol: 0.0, max_iter: 0, x_layout: xl, y_layout: yl, pred_layout: pl, form: canonical_form() });
             }
         } else {
             for penalty in [0.01, 1.0] {
@@ -853,6 +1121,7 @@ fn layout_specs(ctx: &Ctx, task: &Task) -> Vec<Spec> {
                             x_layout: xl,
                             y_layout: yl,
                             pred_layout: pl,
+                            form: canonical_form(),
                         });
                     }
                 }
@@ -863,6 +1132,9 @@ fn layout_specs(ctx: &Ctx, task: &Task) -> Vec<Spec> {
 }
 
 fn specs_for(ctx: &Ctx, task: &Task, reduced_targets: bool) -> Vec<Spec> {
+    if task.builder {
+        return builder_specs(task);
+    }
     if task.layouts {
         return layout_specs(ctx, task);
     }
@@ -871,7 +1143,7 @@ fn specs_for(ctx: &Ctx, task: &Task, reduced_targets: bool) -> Vec<Spec> {
         "ols" => {
             for tcol in 0..3 {
                 for intercept in [true, false] {
-                    v.push(Spec { float: task.float, est: "ols", targets: vec![tcol], penalty: 0.0, l1_ratio: 0.0, intercept, tol: 0.0, max_iter: 0, x_layout: "std", y_layout: "std", pred_layout: "std" });
+                    v.push(Spec { float: task.float, est: "ols", targets: vec![tcol], penalty: 0.0, l1_ratio: 0.0, intercept, tol: 0.0, max_iter: 0, x_layout: "std", y_layout: "std", pred_layout: "std", form: canonical_form() });
                 }
             }
         }
@@ -903,7 +1175,7 @@ fn specs_for(ctx: &Ctx, task: &Task, reduced_targets: bool) -> Vec<Spec> {
                                 } else {
                                     ctx.pick(MAX_ITER_NO_L1_QUICK, MAX_ITER_NO_L1)
                                 };
-                                v.push(Spec { float: task.float, est: if est == "enet" { "enet" } else { "mtl" }, targets: targets.clone(), penalty, l1_ratio, intercept, tol, max_iter, x_layout: "std", y_layout: "std", pred_layout: "std" });
+                                v.push(Spec { float: task.float, est: if est == "enet" { "enet" } else { "mtl" }, targets: targets.clone(), penalty, l1_ratio, intercept, tol, max_iter, x_layout: "std", y_layout: "std", pred_layout: "std", form: canonical_form() });
                             }
                         }
                     }
@@ -924,8 +1196,10 @@ fn main() {
          variants: an appended constant column (0, 1 or 5000) and an appended duplicate of column 0, run only with penalty > 0 and l1_ratio < 1; targets = fixed linear function of the centred lattice coordinates + constant + fixed noise table, 3 columns. \
          plus 'even_targets' members (integer targets that are an even function of column 0, so column 0 is exactly orthogonal to them). \
          Tall designs (n in {16, 24, 40} >= 8 x columns, p in {1, 2}; quick {16, 40}) carry the same images and, for OLS only, strongly offset images (offset 1e7 in f64, 2000 in f32 and f64, unit spacing; p = 2: both columns / one column). \
-         Large replicated members: the 4-level, 2x3 and Latin-square designs repeated cyclically to n in {1025, 4097} (quick: 2x3 at 1025), images (0,1), (5,1), (0,1e3), all estimators with reduced target sets and the quick iteration budgets (1e4 / 300) in both tiers. \
+         Large replicated members: the 4-level, 2x3 and Latin-square designs repeated cyclically to n in {1025, 4097} (quick: 2x3 at 1025), images (0,1), (5,1), (0,1e3) (n = 4097: the first two; quick: the first), all estimators with reduced target sets and the quick iteration budgets (1e4 / 300) in both tiers. \
          Layout family: on the well-conditioned images (offset {0,5}, scale {1,1e3}) of four designs (n = 6, 9, 16, 1025) every estimator is also run with records / targets / predict input as column-major owned array (f), transposed view of a feature-major array (t), reversed-row view of a reversed copy (rev), every second row of a larger array with NaN filler rows (stride2): 8 (1-D targets) or 10 layout combinations x {OLS intercept on/off; penalty {.01,1} x l1_ratio {.5,1} x intercept x tol 1e-8 (f32: 1e-4)}. \
+         Correlated designs: sheared factorials (x0 = s + e, x1 = e; x0 = s, x1 = s + e, x2 = s + e + f), a nearly collinear pair (a, 3a + b), each also with 'suppressor_targets' (y = K (z0 - z1) + c + small noise: a feature with (almost) zero marginal correlation and a non-zero optimal coefficient). \
+         Builder family (3 small data sets): LinearRegression through new() / default() with and without with_intercept and with a decoy write first; ElasticNet / MultiTaskElasticNet parameter sets through all 120 orders of the five setters, the constructors params() / new() / default() / ridge() / lasso(), a decoy-then-real write of every field, and the setter-free forms (documented defaults). \
          Estimators: OLS (each target column, intercept on / off), ElasticNet (single target columns), MultiTaskElasticNet (first 1..3 target columns; quick: all 3); grid penalty {0,.01,.1,1,10} x l1_ratio {0,.5,1} x intercept {on,off} x tol {1e-4,1e-8}; \
          max_iterations 1e5 (quick 1e4) when penalty*l1_ratio > 0, 2000 (quick 300) when penalty*l1_ratio = 0 (the implementation's gap then equals the primal objective and never closes on noisy targets); f32 and f64. \
          Every member is run. evaluations = fits; a fit that ends on the iteration cap is counted in not_converged_iteration_cap and not judged (except on mean-zero orthogonal designs with an l1 part, where ending on the cap is itself a violation); \
@@ -938,9 +1212,12 @@ fn main() {
     ctx.assume("global cross-check: P(returned) - P* <= gap/n + eps with P* from the harness's own f64 block coordinate descent on the centred problem (<= 20000 sweeps, accepted only when its own KKT-implied decrease is < 1e-14 x ||y||^2/2n, otherwise counted in global_check_skipped_reference_unconverged)");
     ctx.assume("l1 threshold: a non-zero coefficient row j with ||x_j'(R + x_j w_j)|| < n*penalty*l1_ratio - margin is a violation; margin = (10*tol + 100*c_obj) x (threshold + sum_k |x_j.x_k| ||w_k|| + ||x_j'Y||); inside the margin = indeterminate (counted)");
     ctx.assume("OLS: |x_j.r| <= c x ||x_j|| x S, |1.r| <= c x sqrt(n) x S and, with intercept, |(x_j - mean_j).r| <= c x ||x_j - mean_j|| x S, with S = ||y|| + sum_k ||x_k|| |beta_k| + sqrt(n)|b| (backward-error scale of a least-squares solve), c = 1e-12 (f64) / 1e-5 (f32) x max(1, sqrt(n / 40)) (n <= 40: the plain constant; the factor only concerns the n >= 1025 members) (a Householder QR stays below 1e-3 of these on the whole catalogue, see ols_max_*_ratio); SSE ladder slack (c S)^2");
-    ctx.assume("OLS: SSE <= reference minimum + (c (S + kappa ||r||))^2 + 8 eps_f64 x evaluation magnitude; reference = modified Gram-Schmidt on the augmented matrix of centred (with intercept), unit-norm columns in f64; both SSEs are evaluated on the centred data; kappa = the reference's condition estimate of [X | 1]");
+    ctx.assume("OLS: SSE <= reference minimum + (c (S + kappa ||r||))^2 + 8 eps_f64 x max(1, sqrt(n / 40)) x evaluation magnitude; reference = modified Gram-Schmidt on the augmented matrix of centred (with intercept), unit-norm columns in f64; both SSEs are evaluated on the centred data; kappa = the reference's condition estimate of [X | 1]");
     ctx.assume("predict == X w + b within 1e-12 (f64) / 1e-5 (f32) x (sum |x_ij w_j| + |b|)");
     ctx.assume("layout family: every layout run is judged by all oracles and must give the same verdicts as the standard-layout run of the same case; fitted values X w + b of the two models (f64) must agree within 1e-9 (f64) / 1e-4 (f32) x (||fitted|| + ||y||) + sqrt(2 gap_1) + sqrt(2 gap_2) (two points whose suboptimality is bounded by their gaps); runs on the iteration cap are not compared (counted); arithmetic order of ndarray's dot differs between contiguous and strided columns, so bit-identity is only counted (layout_models_bit_identical), not demanded");
+    ctx.assume("builder family: the checked parameter set's getters must equal the final logical set exactly, and the fitted model (coefficients, intercept, gap, n_steps, predictions) must be bit-identical to the one of the canonical construction new().with_intercept(e) / params().penalty().l1_ratio().with_intercept().tolerance().max_iterations(); every form is also judged by all oracles with the documented / final parameters");
+    ctx.assume("predict_inplace (every fit): the result written into a NaN-filled buffer and into a buffer holding the predictions of the reversed batch must be bit-identical to predict()");
+    ctx.assume("iteration cap on an easy problem: n <= 100, l1 part > 0, not a mean-zero orthogonal design (own signature), f64 or f32 as above, and the harness's plain cyclic (block) coordinate descent on the very problem the implementation iterates on (records as given, targets centred when an intercept is fitted, start 0, same duality-gap formula) reaches gap < 0.5 x (f32: 0.01 x) tol ||y||^2 with coefficient changes < tol/10 within N <= 100 sweeps, and max_iterations >= 100 N; counted in cap_on_easy_problem_checked (cannot hold for penalty*l1_ratio = 0, where the gap never closes)");
     ctx.assume("domain: [X | 1 if intercept] has full column rank (lvmc_core::refmath::rank on unit-norm columns, pivot tolerance 1e-7) — otherwise the case is run only with penalty > 0 and l1_ratio < 1 and counted out of domain else");
     ctx.assume("'mean-zero orthogonal design' (where the iteration cap is a violation): |mean_j| <= 1e-6 rms_j and |x_j.x_k| <= 1e-6 ||x_j|| ||x_k||, l1 part > 0, f64 — or f32 with tol >= 1e-4 and all non-zero |x_ij| in [1e-2, 1e2] (beyond that the f32 gap cannot resolve tol x ||y||^2)");
     ctx.assume("narrow signature *.intercept_is_target_mean_on_offset_features_not_joint_optimum is assigned only when the intercept equals mean(y) (1e-12 / 1e-5 relative), some column mean is non-zero (> 1e-6 rms), no coefficient / row perturbation beats the gap (the coefficients are optimal for the frozen intercept) and the intercept move or the joint reference optimum does");
@@ -959,13 +1236,16 @@ fn main() {
                 }
                 if d.reduced_targets && est != "ols" {
                     for c in 0..PENALTIES.len() {
-                        tasks.push(Task { data: i, float, est, layouts: false, penalty_chunk: Some(c) });
+                        tasks.push(Task { data: i, float, est, layouts: false, builder: false, penalty_chunk: Some(c) });
                     }
                 } else {
-                    tasks.push(Task { data: i, float, est, layouts: false, penalty_chunk: None });
+                    tasks.push(Task { data: i, float, est, layouts: false, builder: false, penalty_chunk: None });
+                }
+                if in_builder_family(d) {
+                    tasks.push(Task { data: i, float, est, layouts: false, builder: true, penalty_chunk: None });
                 }
                 if in_layout_family(d, thorough) {
-                    tasks.push(Task { data: i, float, est, layouts: true, penalty_chunk: None });
+                    tasks.push(Task { data: i, float, est, layouts: true, builder: false, penalty_chunk: None });
                 }
             }
         }
@@ -1002,7 +1282,7 @@ fn main() {
         }
         st.add("specs_visited", specs.len() as u64);
         ctx.violations(v);
-        ctx.sample(|| json!({"design": data.design, "variant": data.variant, "offsets": data.offsets, "scales": data.scales, "n": data.x.len(), "x_first_rows": data.x.iter().take(12).collect::<Vec<_>>(), "y_first_rows": data.y.iter().take(12).collect::<Vec<_>>(), "float": task.float, "estimator": task.est, "layout_family": task.layouts, "fits": specs.len()}));
+        ctx.sample(|| json!({"design": data.design, "variant": data.variant, "offsets": data.offsets, "scales": data.scales, "n": data.x.len(), "x_first_rows": data.x.iter().take(12).collect::<Vec<_>>(), "y_first_rows": data.y.iter().take(12).collect::<Vec<_>>(), "float": task.float, "estimator": task.est, "layout_family": task.layouts, "builder_family": task.builder, "fits": specs.len()}));
         global.lock().unwrap().merge(st);
     });
     let g = global.into_inner().unwrap();
